@@ -495,8 +495,13 @@ def main():
     log("%s %s: %d runs in %.1fs (%.0f runs/h), %d distinct non-trivial interleavings, faults %s" %
         (prop, tier, len(results), run_wall, len(results) / max(run_wall, 1e-6) * 3600, len(hashes_nontrivial),
          dict(fault_counts)))
+    # one line per listed finding (a finding may show in several violation classes)
+    by_finding = {}
     for (k, cls, n, r) in known_hits:
-        log("KNOWN-FINDING: property=%s %s (class %s, %d runs, e.g. seed %d)" % (prop, k["what"], cls, n, r["seed"]))
+        by_finding.setdefault(k["sub"], (k, []))[1].append((cls, n, r["seed"]))
+    for sub, (k, hits) in sorted(by_finding.items()):
+        log("KNOWN-FINDING: property=%s %s (sub-workload %s; %s)" % (prop, k["what"], sub,
+            "; ".join("class %s in %d runs, e.g. seed %d" % h for h in hits)))
     if violations:
         for (cls, path, best) in violations:
             log("violation class %s: %s" % (cls, best.get("message", "")[:500]))
